@@ -111,6 +111,9 @@ def two_lines(versions, shapes):
                     if mode == "one-chunk":
                         w.call(tasks.add_job, g.gw.logic, line1)
                         w.call(tasks.add_job, g.gw.logic, line2)
+                        reply = w.call(tasks.run_job)  # logic(line1), as the pump does
+                        w.call(tasks.transport.send, reply)
+                        followups = len(tasks.queue) - 1
                         C.drain(w, g)
                     else:
                         C.step_line(w, g, line1)
@@ -119,7 +122,9 @@ def two_lines(versions, shapes):
                     w.escaped(exc, f"pump raised[{mode}]")
                 runs[mode] = (stepref.project(g.gw), C.emissions(g))
             base_state, base_out = runs["two-chunks"]
-            tag = f"{C.kind_tag(w, version, l1)} then {C.kind_tag(w, version, l2)}"
+            tag = ("the first line queued follow-up jobs (presentation request / wake-up burst) "
+                   "behind the already queued second line" if followups > 0
+                   else "the first line queued nothing")
             for mode in ("one-chunk", "asyncio"):
                 st, out = runs[mode]
                 w.check(stepref.state_eq(w, st, base_state),
@@ -142,7 +147,7 @@ def build(tier):
                  "decode": "uninterpreted function of the byte tuple"},
                 goals=["lines", "no-line"],
                 doc="Packetizer/LineReader framing is independent of the chunking"),
-        Harness("two-lines", two_lines(["1.4", "2.2"] if q else C.VERSIONS,
+        Harness("two-lines", two_lines(["2.2"] if q else C.VERSIONS,
                                        [[], ["sleep", "awake"]]),
                 {"lines": 2, "payload_atoms_max": 1, "modes": ["one-chunk", "two-chunks", "asyncio"],
                  "second_line": "value request or internal config/time/id request"},
